@@ -60,8 +60,16 @@ def run(ctx):
         ctx.violation("c11-model-driver", "model driver failed: " + mlog[-500:], {"log": mlog[-2000:]}, found_input=False)
     impl = c10.read_lines(os.path.join(out, "impl.txt"))
     model = c10.read_lines(os.path.join(out, "model.txt"))
+    if not ctx.replay:
+        c10.count_guard(ctx, "c11", summ, impl, model, None)
+        ctx.min_evaluations = 700 if ctx.tier == "quick" else 20000
+    impl.pop(None, None)
+    model.pop(None, None)
     # the model wraps export_import results as ( "ok" proj decodes ); projections of the original bus are bare
     mism, agree_ok, agree_err, items = c10.compare(ctx, impl, model, None, prefix="c11")
+    if not ctx.replay and mism + agree_ok + agree_err != len(impl):
+        ctx.violation("c11-driver-count", "%d of %d implementation records were compared" % (mism + agree_ok + agree_err, len(impl)),
+                      {}, found_input=False)
 
     for sig, f in sorted(summ["failures"].items()):
         ctx.violation(sig, "ExportBus -> ImportDBCFile breaks C11 (%s): %s" % (sig, f["detail"]),
